@@ -436,6 +436,12 @@ def run(repo: Repo, rep: Report, tier: str) -> None:
     n += rule_generated(repo, rep)
     n += rule_normalise(repo, rep)
     n += rule_gray_utils(repo, rep)
+    # the tables of one modulator are its own: a table memoised across instances (module / class level) must be keyed
+    # by everything that determines it and must not hand out shared storage
+    from .c15 import registered
+    from .c20 import rule_cache_key
+
+    n += rule_cache_key(repo, rep, registered(repo, "register_modulator"))
     rep.floor("C14 rule instances", n, 45)
     rep.decided_clauses += [
         "literal constellations: distinct points, bijective labels, unit energy, Gray adjacency where promised",
